@@ -110,7 +110,13 @@ where
         if self.edge.leading {
           // the item emitted on the leading edge must not be emitted a
           // second time on the trailing edge of the window it opens.
-          self.trailing_value.rc_deref_mut().take();
+          let unclaimed = self.trailing_value.rc_deref_mut().take();
+          if self.edge.tailing && unclaimed.is_none() {
+            // on a multi-threaded scheduler the task of the window that
+            // just closed may have run since the value was stored above:
+            // it has already emitted this very item on its trailing edge.
+            return;
+          }
           self.observer.next(value)
         }
         let task = OnceTask::new(
